@@ -344,6 +344,7 @@ def run(chk: core.Check):
     for ls in core.parallel(_record, [rng.randrange(1 << 30) for _ in range(32 if quick else 320)], {"calls": 25}):
         lines.extend(ls)
     rej = trace_validate(chk, lines)
+    core.canary(chk, lines, trace_validate, corrupt=lambda ln: dict(ln, clean=not ln["clean"]), what="Trace_SerOpts", skip=set(rej))
     chk.traces_accepted += len(lines) - len(rej)
     chk.evaluations += len(lines)
     for i in rej[:25]:
